@@ -37,6 +37,26 @@ func implParse(doc []byte, nd, copyStrings bool, reuse *simdjson.ParsedJson) (ou
 	return ParseOut{PJ: pj, Tape: pj.Tape, Strings: pj.Strings.B}
 }
 
+// implParseOpts calls Parse/ParseND with an explicit option list (options apply in order).
+func implParseOpts(doc []byte, nd bool, reuse *simdjson.ParsedJson, opts ...simdjson.ParserOption) (out ParseOut) {
+	defer func() {
+		if r := recover(); r != nil {
+			out = ParseOut{Err: true, Panic: fmt.Sprint(r)}
+		}
+	}()
+	var pj *simdjson.ParsedJson
+	var err error
+	if nd {
+		pj, err = simdjson.ParseND(doc, reuse, opts...)
+	} else {
+		pj, err = simdjson.Parse(doc, reuse, opts...)
+	}
+	if err != nil {
+		return ParseOut{Err: true}
+	}
+	return ParseOut{PJ: pj, Tape: pj.Tape, Strings: pj.Strings.B}
+}
+
 // implParseDefault calls Parse/ParseND without any option (string copying is
 // the documented default).
 func implParseDefault(doc []byte, nd bool, reuse *simdjson.ParsedJson) (out ParseOut) {
